@@ -585,3 +585,59 @@ def ref_labels(v, grammar, expansion_depthing: bool):
         return (nodes, dist, weighted, beneath)
 
     return fold(v)
+
+
+def ref_labels_expansion(v, view: "SpecView"):
+    """Reference fold for grammars extracted with expansion_depthing=True (every grammar expansion counts):
+    terminals (builtin values, field-less nodes) have nodes = distance = weighted = 1; a node with fields has
+    nodes = 1 + sum(adj(c) + nodes(c)), distance = max(1, max(distance(c) + adj(c) + [c is not a container])),
+    weighted = distance + sum(weighted(c)), where adj(c) is the number of abstract layers between the declared
+    type of the field and the class of the value (1 for a list / tuple value).  Containers are transparent; their
+    elements are counted as the library documents them ('you can only read the distance of actual objects':
+    no hidden expansions are added for elements).  Returns (nodes, distance, weighted)."""
+
+    def layers(decl_t, val) -> int:
+        if isinstance(val, (list, tuple)):
+            return 1
+        t = decl_t
+        while isinstance(t, list) and t[0] == "ann":
+            t = t[1]
+        if isinstance(t, list) and t[0] == "union":
+            # which alternative was expanded is not recorded in the value: take the fewest hidden expansions
+            cands = [layers(alt, val) for alt in t[1:] if not check_value(view, val, alt, None, what=("type",))]
+            return min(cands) if cands else 0
+        if isinstance(t, list) and t[0] == "ref" and view.is_abstract(t[1]):
+            n = 0
+            c = type(val).__name__
+            while c is not None and c != t[1]:
+                c = view.parent.get(c)
+                n += 1
+            return n if c == t[1] else 0
+        return 0
+
+    def fold(x):
+        if isinstance(x, (list, tuple)):
+            nodes, dist, weighted = 0, 0, 0
+            for c in x:
+                n, d, w = fold(c)
+                nodes += n
+                dist = max(dist, d + (0 if isinstance(c, (list, tuple)) else 1))
+                weighted += w
+            return nodes, dist, weighted
+        if type(x).__module__ == "builtins":
+            return 1, 1, 1
+        fields = view.types.get(type(x).__name__) or []
+        if not fields:
+            return 1, 1, 1
+        nodes, dist, weighted = 1, 1, 0
+        for fn, ft in fields:
+            c = getattr(x, fn)
+            n, d, w = fold(c)
+            adj = layers(ft, c)
+            nodes += adj + n
+            dist = max(dist, d + adj + (0 if isinstance(c, (list, tuple)) else 1))
+            weighted += w
+        weighted += dist
+        return nodes, dist, weighted
+
+    return fold(v)
